@@ -38,6 +38,49 @@ class HangDetected(BaseException):
     pass
 
 
+class LenBoom(Exception):
+    """raised by the `__len__` of the harness-owned input (start-up fault 1)"""
+
+
+class ConfigureBoom(Exception):
+    """raised by `backend.configure` (start-up fault 2; in `__enter__` for the scenario-level enter fault)"""
+
+
+class StartCallBoom(Exception):
+    """raised by `backend.start_call` (start-up fault 4)"""
+
+
+class IterInitBoom(Exception):
+    """raised by the `__iter__` of the harness-owned input (start-up fault 5)"""
+
+
+# the same four as direct subclasses of BaseException (like KeyboardInterrupt / SystemExit): fault_cls = 1
+class LenBoomB(BaseException):
+    pass
+
+
+class ConfigureBoomB(BaseException):
+    pass
+
+
+class StartCallBoomB(BaseException):
+    pass
+
+
+class IterInitBoomB(BaseException):
+    pass
+
+
+def _boom(kind, cls):
+    return {1: (LenBoom, LenBoomB), 2: (ConfigureBoom, ConfigureBoomB), 4: (StartCallBoom, StartCallBoomB),
+            5: (IterInitBoom, IterInitBoomB)}[kind][1 if cls == 1 else 0]()
+
+
+# start-up faults of one call (lean/JoblibModel/ParallelStartup.lean): kind -> what raises
+FAULT_KINDS = {1: "len(iterable)", 2: "backend.configure", 3: "n_jobs == 0", 4: "backend.start_call", 5: "iter(iterable)",
+               6: "pre_dispatch resolution", 7: "islice(iterator, pre_dispatch)"}
+
+
 # ---------------------------------------------------------------- scenario data
 
 
@@ -47,6 +90,11 @@ class Call:
     fail: tuple = ()  # positions (0-based within the call) of tasks that raise
     iterfail: int = -1  # position at which the input iterator raises (-1: never)
     cons: tuple = ()  # consumer ops for generator modes: 1 next, 2 close, 3 drop, 4 call-again, 5 pause(hook), 6 leave the with-block
+    fault: int = 0  # start-up fault of this call (FAULT_KINDS; 0 none)
+    fault_cls: int = 0  # kind 6: class the resolution raises (1 ValueError 2 TypeError 3 ZeroDivisionError 4 OverflowError), as
+    #                     predicted by the harness's own table (m1.BAD_PD); kinds 1, 2, 4, 5: 1 = the exception is a direct subclass
+    #                     of BaseException; else 0
+    fault_pd: object = None  # kinds 6, 7: the value assigned to `Parallel.pre_dispatch` for this call
 
 
 @dataclass
@@ -77,6 +125,11 @@ class Scenario:
     #                            pytest filterwarnings=error): closing must still stop dispatch and leave the object clean
     sized: bool = False        # the input of every call is an object with __len__ (and a lazy __iter__), not a bare generator:
     #                            whether the input has a length must not change what is pulled when (in the model: no field)
+    start_guard: bool = True   # model switch only: which code variant the MODEL follows (True: /repo as it is, with the guard of
+    #                            `Parallel.__call__` around `_start_call`; False: the code before the F52 repair). Chosen by a probe.
+    enter_cls: int = 0
+    enter_fault: int = 0       # 2: `backend.configure` raises in `__enter__` (managed only): the with statement fails, the calls are
+    #                            then made on the object outside any block
     probe_wait: bool = False   # evaluate Parallel._wait_retrieval() at every bytecode of completion callbacks delivered
     #                            while the caller sleeps in the retrieval loop (what the caller would see if it ran there)
 
@@ -92,7 +145,15 @@ class Scenario:
         t.append(len(self.sched))
         for e in self.sched:
             t += [len(e), *e]
+        if self.has_faults() or not self.start_guard:
+            # optional tail (scenarios without start-up faults keep their old encoding)
+            t += [int(self.start_guard), self.enter_fault, self.enter_cls if self.enter_fault else 0]
+            for c in self.calls:
+                t += [c.fault, c.fault_cls]
         return t
+
+    def has_faults(self):
+        return bool(self.enter_fault or any(c.fault for c in self.calls))
 
     def line(self):
         return " ".join(str(x) for x in self.tokens())
@@ -101,7 +162,10 @@ class Scenario:
         return dict(nj=self.nj, bs_auto=self.bs_auto, bs=list(self.bs), pd_mode=self.pd_mode, pd=self.pd,
                     pd_expr=self.pd_expr, ra=self.ra, timeout=self.timeout, managed=self.managed,
                     abort_drops=self.abort_drops,
-                    calls=[dict(n=c.n, fail=list(c.fail), iterfail=c.iterfail, cons=list(c.cons)) for c in self.calls],
+                    calls=[dict(n=c.n, fail=list(c.fail), iterfail=c.iterfail, cons=list(c.cons),
+                                **(dict(fault=c.fault, fault_cls=c.fault_cls, fault_pd=c.fault_pd) if c.fault else {}))
+                           for c in self.calls],
+                    start_guard=self.start_guard, enter_fault=self.enter_fault, enter_cls=self.enter_cls,
                     sched=[list(e) for e in self.sched], instr=[list(e) for e in self.instr],
                     midpull_close=list(self.midpull_close), probe_wait=self.probe_wait, verbose=self.verbose,
                     sized=self.sized, reenter=self.reenter, warn_error=self.warn_error)
@@ -111,7 +175,9 @@ class Scenario:
         return Scenario(nj=d["nj"], bs_auto=d["bs_auto"], bs=tuple(d["bs"]), pd_mode=d["pd_mode"], pd=d["pd"],
                         pd_expr=d.get("pd_expr", ""), ra=d["ra"], timeout=d["timeout"], managed=d["managed"],
                         abort_drops=d["abort_drops"],
-                        calls=tuple(Call(c["n"], tuple(c["fail"]), c["iterfail"], tuple(c["cons"])) for c in d["calls"]),
+                        calls=tuple(Call(c["n"], tuple(c["fail"]), c["iterfail"], tuple(c["cons"]), int(c.get("fault", 0)),
+                                         int(c.get("fault_cls", 0)), c.get("fault_pd")) for c in d["calls"]),
+                        start_guard=bool(d.get("start_guard", True)), enter_fault=int(d.get("enter_fault", 0)), enter_cls=int(d.get("enter_cls", 0)),
                         sched=tuple(tuple(e) for e in d["sched"]), instr=tuple(tuple(e) for e in d.get("instr", ())),
                         midpull_close=tuple(d.get("midpull_close", ())), probe_wait=bool(d.get("probe_wait", False)), verbose=int(d.get("verbose", 0)),
                         sized=bool(d.get("sized", False)), reenter=str(d.get("reenter", "")), warn_error=bool(d.get("warn_error", False)))
@@ -128,6 +194,29 @@ class _Sized:
 
     def __iter__(self):
         return self._gen
+
+
+class _FaultyInput:
+    """The harness-owned input of a call with start-up fault 1 (`__len__` raises) or 5 (`__iter__` raises)."""
+
+    def __init__(self, gen, n, fault, cls):
+        self._gen, self._n, self._fault, self._cls = gen, n, fault, cls
+
+    def __iter__(self):
+        if self._fault == 5:
+            raise _boom(5, self._cls)
+        return self._gen
+
+
+class _FaultyInputSized(_FaultyInput):
+    def __len__(self):
+        if self._fault == 1:
+            raise _boom(1, self._cls)
+        return self._n
+
+
+def _faulty_input(gen, n, fault, cls, sized):
+    return (_FaultyInputSized if (fault == 1 or sized) else _FaultyInput)(gen, n, fault, cls)
 
 
 # ---------------------------------------------------------------- the run
@@ -212,6 +301,9 @@ class Run:
         self._in_probe = False
         self.midpull_closed = False
         self.first_sleep_at = {}
+        self.cur_fault = 0     # start-up fault of the call being made (0 outside `par(...)`)
+        self.cur_cls = 0
+        self.entering = False  # inside `par.__enter__()`
 
     def ev(self, s):
         self.log.append(s)
@@ -285,18 +377,24 @@ class Run:
             supports_sharedmem = True
 
             def effective_n_jobs(self, n_jobs):
-                return sc.nj
+                return 0 if run.cur_fault == 3 else sc.nj
 
             def configure(self, n_jobs=1, parallel=None, **kw):
                 self.parallel = parallel
                 run.ev("configure")
                 run.reenter_here("configure")
                 run.hook("configure")
-                return sc.nj
+                if run.cur_fault == 2:
+                    raise _boom(2, run.cur_cls)
+                if run.entering and sc.enter_fault == 2:
+                    raise _boom(2, sc.enter_cls)
+                return 0 if run.cur_fault == 3 else sc.nj
 
             def start_call(self):
                 run.ev("start_call")
                 run.reenter_here("start_call")
+                if run.cur_fault == 4:
+                    raise _boom(4, run.cur_cls)
 
             def stop_call(self):
                 run.ev("stop_call")
@@ -390,8 +488,17 @@ class Run:
                     return_as=["list", "generator", "generator_unordered"][sc.ra], verbose=sc.verbose, **kw)
                 self.par = par
                 if sc.managed:
-                    par.__enter__()
-                    self.ev("enter")
+                    self.entering = True
+                    try:
+                        par.__enter__()
+                        self.ev("enter")
+                    except (ConfigureBoom, ConfigureBoomB) as e:
+                        # the with statement failed: neither its body nor __exit__ run; the calls below are made on the
+                        # object outside any block
+                        self.ev("raise " + _exc_name(e))
+                        self.exited = True
+                    finally:
+                        self.entering = False
                 base = 0
                 try:
                     for cno, call in enumerate(sc.calls):
@@ -490,10 +597,20 @@ class Run:
         sc = self.sc
         try:
             self.in_call = True
+            saved_pd = par.pre_dispatch
             try:
-                out = par(_Sized(src(cno, base, call), call.n) if sc.sized else src(cno, base, call))
+                if call.fault in (1, 5):
+                    inp = _faulty_input(src(cno, base, call), call.n, call.fault, call.fault_cls, sc.sized)
+                else:
+                    inp = _Sized(src(cno, base, call), call.n) if sc.sized else src(cno, base, call)
+                if call.fault in (6, 7):
+                    par.pre_dispatch = call.fault_pd  # the public attribute `__call__` reads
+                self.cur_fault, self.cur_cls = call.fault, call.fault_cls
+                out = par(inp)
             finally:
+                self.cur_fault = 0
                 self.in_call = False
+                par.pre_dispatch = saved_pd
         except HangDetected:
             raise
         except BaseException as e:  # noqa: BLE001
